@@ -1,7 +1,7 @@
-(* Proofs_Lexer.v — proofs of the C14 statements about regular expressions, maximal munch and lexing
-   (LexStatements.v).  No axioms. *)
 From Coq Require Import List ZArith NArith Lia Bool.
 From Theo Require Import Base Regex Tokens Lexer Errors Scan SpecLex Gen_Lexer LexStatements.
+(* Proofs_Lexer.v — proofs of the C14 statements about regular expressions, maximal munch and lexing
+   (LexStatements.v).  No axioms. *)
 Import ListNotations.
 Local Open Scope nat_scope.
 
